@@ -28,7 +28,7 @@ pub fn insert_keyword_statement_terminators(input: Vec<Token>, _file_id: &FileId
                 col: tok.col,
                 text: "".to_owned(),
             });
-            in_end_statement = false;
+            in_end_statement = tok.token_type == TokenType::EndIf;
         }
 
         output.push(tok);
